@@ -33,8 +33,18 @@ TEMPLATES = {
     # root||{R1{a1,a2}, R2{b1,b2}, R3}: three regions
     'TE': {'N': 8, 'par': [-1, 0, 1, 1, 0, 4, 4, 0], 'kind': [O, C, B, B, C, B, B, B]},
 }
+FIXED = {
+    # root{P{a, b, H1, H2}, Z}: two history states in one compound state; a->b, P->Z, Z->H2, Z->H1, b->a
+    'two_hist': {'N': 7, 'par': [-1, 0, 1, 1, 1, 1, 0], 'kind': [C, C, B, B, S, S, B], 'init': [1, 2, -1, -1, 2, 2, -1],
+                 'tr': [[2, 3, 1], [1, 6, 2], [6, 5, 2], [6, 4, 1], [3, 2, 1]]},
+    # the same with deep history states over nested content root{P{Q{a,b}, c, H1*, H2*}, Z}
+    'two_deep': {'N': 9, 'par': [-1, 0, 1, 2, 2, 1, 1, 1, 0], 'kind': [C, C, C, B, B, B, D, D, B],
+                 'init': [1, 2, 3, -1, -1, -1, 2, 5, -1],
+                 'tr': [[3, 4, 1], [1, 8, 2], [8, 7, 2], [8, 6, 1], [2, 5, 1]]},
+}
 LEVELS = {
     'quick': [
+        {'name': 'L4-two-history-K4', 'fixed': ['two_hist', 'two_deep'], 'K': 4, 'variants': 'few', 'budget_s': 40},
         {'name': 'L1-N3-M2-K1', 'N': 3, 'M': 2, 'K': 1, 'variants': 'all', 'budget_s': 90},
         {'name': 'L1b-N3-M3-K1-prio', 'N': 3, 'M': 3, 'K': 1, 'nevents': 1, 'variants': 'few', 'prio': 1,
          'kinds': 'bco', 'targets': 'self_none', 'budget_s': 90},
@@ -63,7 +73,7 @@ HASHSEED = {'quick': {'seeds': [0, 1, 2], 'levels': [
                 {'name': 'H2-N4-M2-K2', 'N': 4, 'M': 2, 'K': 2, 'guards': 1, 'max_shards': 200},
                 {'name': 'H3-N5-M1-K2', 'N': 5, 'M': 1, 'K': 2, 'guards': 1, 'max_shards': 400},
                 {'name': 'H4-TN-M2-K2', 'templates': ['TN1', 'TN2'], 'M': 2, 'K': 2, 'nevents': 1, 'guards': 0}]}}
-WITNESSES = ['yaml_route', 'api_permuted', 'two_transitions_in_one_step', 'error_in_both', 'orthogonal_exit']
+WITNESSES = ['yaml_route', 'api_permuted', 'built_by_editing', 'two_transitions_in_one_step', 'error_in_both', 'orthogonal_exit']
 STUBS = ['guards "G(t, event)" shared by both runs (same z3 constants); entry/exit/action probes log']
 ASSUMPTIONS = ['well-formed charts (DESIGN §2)', 'events from {a, b}', 'guards without side effects', 'priorities: unbounded symbolic integers shared by both runs, assigned after construction',
                'hash-seed clause: concrete re-execution under a handful of seeds, not a solver verdict']
@@ -73,6 +83,8 @@ OUTSIDE = ['charts above the bounds of the completed level', 'permutations beyon
 
 
 def shards(level):
+    if 'fixed' in level:
+        return [{'chart': dict(FIXED[n])} for n in level['fixed']]
     if 'templates' in level:
         out = []
         for name in level['templates']:
@@ -133,8 +145,9 @@ def variants(chart, mode):
         torders = [list(p) for p in itertools.permutations(range(m))]
     else:
         rot = list(range(m))[1:] + list(range(m))[:1]
+        edits = [(ident, list(range(m)), 'edit:%s' % c) for c in cg.constructions(chart) if c is not None]
         return [(rev, list(range(m))[::-1], 'api'), (ident, list(range(m)), 'yaml'), (rev, rot, 'yaml')] + (
-            [(ident, rot, 'api')] if m > 2 else [])
+            [(ident, rot, 'api')] if m > 2 else []) + edits
     out = []
     for so in sorders:
         for to in torders:
@@ -183,6 +196,10 @@ def make_inst(g, chart, so, to, route, tag, prio=None):
         return Inst(g, chart, 'id', sc=g.cache[('chart', key)], tag=tag, priorities=prio)
     if route == 'api':
         return Inst(g, chart, 'id', order=so, tr_order=to, code_hook=hook, tag=tag, cache_key=key, priorities=prio)
+    if route.startswith('edit:'):   # same structure reached by editing: states attached elsewhere first, then moved
+        mv = route[5:]
+        return Inst(g, chart, 'id', order=so, tr_order=to, code_hook=hook, tag=tag, cache_key=key, priorities=prio,
+                    moved='all' if mv == 'all' else int(mv))
     base = Inst(g, chart, 'id', order=so, tr_order=to, code_hook=hook, tag=tag + '-pre')
     sc2, trs = via_yaml(base.sc, len(chart['tr']))     # priorities are assigned after the YAML route (C11 covers them)
     g.cache[('chart', key)] = (sc2, trs, base.cm)
@@ -200,7 +217,7 @@ def harness(g, chart, level, canary=False):
             for i, (so, to, route) in enumerate(vs)]
     cm = ref.cm
     for _, so, to, route in runs:
-        g.witness('yaml_route' if route == 'yaml' else 'api_permuted')
+        g.witness('yaml_route' if route == 'yaml' else 'built_by_editing' if route.startswith('edit') else 'api_permuted')
     hist = []
 
     def info(so, to, route):
